@@ -391,6 +391,32 @@ def _renumber(idx, rec):
 
 
 # ------------------------------------------------------------------ parameters and literals holding whole numbers as ints
+def _belongs_values(rec):
+    """Set membership over a value alphabet that is not confined to small whole numbers: every subset of size 1-2 of 8 values
+    (fractions that single precision cannot hold, a whole number above 2**24, a tiny one, ordinary ones) against a column
+    holding each of these values once; reference: equality of doubles."""
+    import biogeme.expressions as ex
+    from vf.engine import make_db
+    vals = [0.1, 16777217.0, 1e-07, 0.3, 0.5, 3.0, -2.0, 1.5]
+    db = make_db([dict(z=v) for v in vals], ['z'])
+    for k in (1, 2):
+        for members in itertools.combinations(vals, k):
+            want = [1.0 if v in members else 0.0 for v in vals]
+            tag = f'belongs:{members}'
+            try:
+                got = [float(v) for v in ex.BelongsTo(ex.Variable('z'), set(members)).get_value_c(database=db, prepare_ids=True)]
+            except Exception as e:
+                rec.violation(f'C01|engine-path-raised-{type(e).__name__}|belongs-values', f'{tag}: {str(e)[:160]}', dict(part='belongs_values'))
+                return
+            rec.case((tag,), (tag, got), outcome='belongs')
+            if got != want:
+                exact32 = all(float(__import__('numpy').float32(m)) == m for m in members)
+                key = 'C01|engine-value|belongs:every-member-representable-in-single-precision' if exact32 else \
+                    'C01|engine-value|belongs:set-member-not-representable-in-single-precision'
+                rec.violation(key, f'BelongsTo(z, {set(members)}) on z = {vals}: {got}, expected {want}', dict(part='belongs_values'),
+                              expected=want, observed=got)
+
+
 def _int_typed(rec):
     """Parameters declared with Python ints (Beta('a', 10, ...) keeps the int) and integer literals: every binary
     operator kind over all ordered pairs of 8 whole-number values (incl. negative ones and results beyond 2**63), and over
@@ -545,6 +571,7 @@ def tasks(tier, seed):
             t.append(dict(part='triple', lo=i, hi=min(i + chunk, len(tri)), rot=rot))
     t.append(dict(part='ncdf_tail'))
     t.append(dict(part='int_typed'))
+    t.append(dict(part='belongs_values'))
     for ti in range(len(FIXH_TERMS)):
         t.append(dict(part='fixed_history', term=ti))
     for i in range(len(renumber_cases())):
@@ -595,6 +622,8 @@ def run_task(task):
             _renumber(task['idx'], rec)
         elif part == 'int_typed':
             _int_typed(rec)
+        elif part == 'belongs_values':
+            _belongs_values(rec)
         elif part == 'fixed_history':
             _fixed_history(task, rec)
         elif part == 'ncdf_tail':
@@ -702,6 +731,8 @@ def replay(case):
             return run_task(dict(part='ncdf_tail'))['violations']
         elif part == 'int_typed':
             return run_task(dict(part='int_typed'))['violations']
+        elif part == 'belongs_values':
+            return run_task(dict(part='belongs_values'))['violations']
         elif part == 'fixed_history':
             return [v for v in run_task(dict(part='fixed_history', term=case['term']))['violations']
                     if v['case'].get('history') == case.get('history')]
